@@ -163,7 +163,7 @@ func directC05(c *Case, h *HistoryJ, plain *CallJ, model *HistoryJ) []Finding {
 		same = true
 	}
 	if !same {
-		out = append(out, Finding{Sig: "C05:resume-equiv:final:" + plain.Res + "->" + last.Res + failClassSuffix(last) + shapeSuffix(c.G),
+		out = append(out, Finding{Sig: equivSig(c.G, "final:"+plain.Res+"->"+last.Res+failClassSuffix(last)),
 			What:  "the final outcome of the interrupted-and-resumed run differs from the uninterrupted run of the same graph",
 			Model: map[string]any{"uninterrupted": plain}, Impl: map[string]any{"resumed_final": last, "calls": len(h.Calls)}})
 		return out
@@ -172,7 +172,7 @@ func directC05(c *Case, h *HistoryJ, plain *CallJ, model *HistoryJ) []Finding {
 		return out // the failing step is cut short: a rerun node of that step is never re-run, siblings may or may not have started
 	}
 	if !multisetEq(eff, plain.Effective) {
-		out = append(out, Finding{Sig: "C05:resume-equiv:execs" + shapeSuffix(c.G),
+		out = append(out, Finding{Sig: equivSig(c.G, "execs"),
 			What:  "the node executions (node path, input) of the interrupted-and-resumed run, aborted rerun attempts excluded, differ from those of the uninterrupted run",
 			Model: map[string]any{"uninterrupted_execs": sorted(plain.Effective)}, Impl: map[string]any{"resumed_execs": sorted(eff), "calls": len(h.Calls)}})
 	}
@@ -199,11 +199,12 @@ func edgeAndBranchSamePred(g *Graph) bool {
 	return found
 }
 
-func shapeSuffix(g *Graph) string {
+// equivSig: signature of a resume-equivalence violation; one signature for the graphs with the C02 shape.
+func equivSig(g *Graph, what string) string {
 	if edgeAndBranchSamePred(g) {
-		return ":edge+branch-same-pred"
+		return "C05:resume-equiv:edge+branch-same-pred"
 	}
-	return ""
+	return "C05:resume-equiv:" + what
 }
 
 func failClassSuffix(c *CallJ) string {
